@@ -233,7 +233,6 @@ Section Proofs.
   Lemma upd_nth_other : forall s i j g, i <> j -> nth_error (updT i g s) j = nth_error s j.
   Proof.
     induction s as [|f r IH]; intros [|i] [|j] g N; simpl; auto; try congruence.
-    apply IH. congruence.
   Qed.
 
   Lemma upd_nth_same : forall s i g, nth_error (updT i g s) i = option_map g (nth_error s i).
@@ -318,7 +317,7 @@ Section Proofs.
     - unfold revert. destruct (fbackup f) as [[j c b]|] eqn:B; [|reflexivity].
       simpl. apply (G f E (St j c b) B).
     - destruct (nth_error s i) as [f|]; [|exact ND].
-      rewrite map_app. simpl. destruct (copy_spec nid f) as [_ [I _]]. rewrite I.
+      rewrite map_app. destruct (copy_spec nid f) as [_ [I _]]. cbn [map]. rewrite I.
       apply NoDup_rev in ND. rewrite <- (rev_involutive (map fid s ++ [nid])).
       apply NoDup_rev. rewrite rev_app_distr. simpl. constructor; [|exact ND].
       rewrite <- in_rev. exact Fr.
